@@ -169,6 +169,35 @@ class Sequence:
     def delta(self):
         return (self.deltaForm(5) + self.deltaForm(6)) / 2
 
+    # ---- C10: statistic of the w-residue window starting at array index i
+    def win_NCPR(self, w, i):
+        blob = self.chargePattern[i:i + w]
+        p = len(np.where(blob > 0)[0])
+        n = len(np.where(blob < 0)[0])
+        return (p - n) / w
+
+    def win_FCR(self, w, i):
+        blob = self.chargePattern[i:i + w]
+        p = len(np.where(blob > 0)[0])
+        n = len(np.where(blob < 0)[0])
+        return (p + n) / w
+
+    def win_sigma(self, w, i):
+        blob = self.chargePattern[i:i + w]
+        p = len(np.where(blob > 0)[0])
+        n = len(np.where(blob < 0)[0])
+        if p + n == 0:
+            return 0
+        return ((p - n) / w) ** 2 / ((p + n) / w)
+
+    def win_hydropathy(self, w, i):
+        chain = [(KD[r] + 4.5) / 9.0 for r in self.seq]
+        return sum(chain[i:i + w]) / w
+
+    def win_density(self, w, i, targets):
+        chain = [(1 if r in targets else 0) for r in self.seq]
+        return sum(chain[i:i + w]) / w
+
     # ---- C07: Sawle-Ghosh sequence charge decoration, residues numbered 1..N
     def sequence_charge_decoration(self):
         total = 0
